@@ -142,6 +142,32 @@ CHECKS = {
         note="Undecided: textual equality with the re-parsed model on "
              "concrete histories. Known finding: a removed gap stays listed "
              "in its set/path. " + TRUSTED),
+    "C06": dict(
+        technique="symbolic field maps and decision tables of the conversion "
+                  "accessors and writers by abstract interpretation over "
+                  "orientations, roles and enumerated lengths (static "
+                  "analysis)",
+        engine="TABLE",
+        design_ref="DESIGN.md section 4, C06",
+        text="Partial. Decides: the GFA2-style accessors of L/C lines read "
+             "the right component of the coordinate pairs; the E->L/C writer "
+             "puts the side with the `from` role first, keeps the alignment "
+             "when sid1 is `from` and complements it otherwise, writes pos "
+             "for containments, the identifier as ID tag, every tag, and "
+             "refuses internal alignments; pos is the container-side begin; "
+             "the interval formulas of L and C lines for every orientation "
+             "and for overlap lengths 0 / partial / whole segment / "
+             "reference != query, with `$` exactly on coordinates equal to "
+             "the segment length; the L/C->E and S writers copy every field "
+             "and tag and drop exactly the one that became positional; the "
+             "default conversion yields nothing for the other version, "
+             "to_version raises VersionError or returns None as requested, "
+             "exactly the record types with a counterpart override it, and "
+             "whole-graph conversion skips instead of raising.",
+        note="Undecided: coordinate arithmetic beyond the enumerated lengths, "
+             "validity of whole converted documents at the strictest level, "
+             "equivalence after there-and-back, P<->O conversion through "
+             "captured paths (C17 territory). " + TRUSTED),
     "C09": dict(
         technique="who-may-call / who-writes checks on the call graph plus "
                   "decision tables of the finders, the rename path and the "
